@@ -65,7 +65,7 @@ func c09(c *Ctx) {
 		if f := p.Func(n); f != nil {
 			entries = append(entries, f)
 		} else {
-			r.Fatalf("anchor %s missing", n)
+			missingAnchor(r, n)
 		}
 	}
 	boundsFor(c, "C09", entries)
